@@ -187,6 +187,7 @@ pub const REQUIRED: &[&str] = &[
     "short_inputs",
     "random_bytes",
     "lz11_extended_length_header",
+    "lz11_extended_header_nonempty",
 ];
 
 fn conforming_case(c: &mut Case, kind: Kind, toks: &[Tok], data: &[u8], what: &str, prefixes: bool) {
@@ -241,6 +242,13 @@ fn conforming_case(c: &mut Case, kind: Kind, toks: &[Tok], data: &[u8], what: &s
     if kind == Kind::Lz11 {
         c.sit("wrapped_0x13");
         check(c, &lz::wrap13(&bare), &format!("{} in 0x13 wrapper", what));
+        if !data.is_empty() && (toks.len() % 3 == 0 || !prefixes) {
+            // the same tokens behind the extended-size header (zero 24-bit size + 32-bit size)
+            c.sit("lz11_extended_header_nonempty");
+            let ext = lz::encode_ext(kind, toks, data.len(), true);
+            check(c, &ext, &format!("{} with extended-size header", what));
+            check(c, &lz::wrap13(&ext), &format!("{} with extended-size header in 0x13 wrapper", what));
+        }
         if data.is_empty() {
             c.sit("lz11_extended_length_header");
         }
